@@ -20,12 +20,13 @@ THEOREMS = [N + t for t in [
     "dl_from_gradient", "adl_from_gradient", "fmm_dl_eq_dense", "fmm_adl_eq_dense",
 ]]
 PARTIAL = {
-    N + "point_map_indexing_partial": "map_space_to_points_impl as it stands addresses arrays sized by the support with the "
-    "grid element index: the theorem needs support = all elements; the full statement is false for the unchanged code "
-    "(point_map_indexing_counterexample) and is proved for the variant of findings/proposed_c17.diff "
-    "(point_map_indexing_patched)",
-    N + "transform_indexing_partial": "compute_p1_curl/rwg_basis/rwg_div_transform_impl write the point rows with the support "
-    "position instead of the element index: equal only for support = all elements (transform_indexing_counterexample)",
+    N + "point_map_indexing_partial": "statement about the code BEFORE the repair 3660968 (arrays sized by the support "
+    "addressed with the grid element index: needs support = all elements; point_map_indexing_counterexample shows the old "
+    "code failing on a segment).  The repaired code is the byPos variant, proved for EVERY support in "
+    "point_map_indexing_patched; the correspondence compares the real arrays with that variant (MODEL_VARIANT='patched')",
+    N + "transform_indexing_partial": "statement about the code BEFORE the repair (point rows written with the support "
+    "position): equal to the element rows only for support = all elements (transform_indexing_counterexample).  After the "
+    "repair the arrays are npts*element+q by definition of the model variant rowsByElem, compared with the real arrays",
     N + "fmm_matvec_eq_dense": "scalar default pipeline with an abstract kernel (covers single layer and, through "
     "dl/adl_from_gradient, double and adjoint double layer); hypersingular and Maxwell evaluators (curl / RWG / div "
     "transforms contracted with the same corrected evaluator) are covered by the index-array theorems, the correspondence "
@@ -53,20 +54,20 @@ LEVEL_TEXT = ("Lean 4 theorems for all sizes, supports, dof maps, kernels over a
               "matvec target_map^T (all-pairs - near-field)(source_map x) equals the dense regular assembler's sum over "
               "non-adjacent element pairs, given that the near-field neighbour lists are exactly the skipped pairs; potential "
               "variant; double / adjoint double layer assembled from the 4-component evaluator output with the right signs; "
-              "point-map and transform index arrays (code as it stands: whole-grid supports only, counterexample theorem for "
-              "segments; patched variant: all supports).  The model is compared with the real sparse maps, index arrays and "
+              "point-map and transform index arrays (repaired code: all supports; the code before the repair: whole-grid supports "
+              "only, with a counterexample theorem for segments).  The model is compared with the real sparse maps, index arrays and "
               "matvecs through the native driver; the real FMM operators (exact-summation exafmm stub) are compared with the "
               "dense ones for all operator families, space variants and grid pairs.")
 LEVEL_NOTE = ("partial: hypersingular and Maxwell evaluators are covered by index-array theorems + correspondence + oracle, not by a "
-              "matvec theorem; exafmm itself is replaced by an exact stub.  Candidate finding fmm-segment-space-point-maps: every "
-              "FMM operator on a segment space raises or is silently wrong (findings/proposed_c17.diff).  Trusted: Lean kernel, "
+              "matvec theorem; exafmm itself is replaced by an exact stub.  The defect fmm-segment-space-point-maps (every FMM operator on a "
+              "segment space raised or was silently wrong) was repaired in /repo (3660968); the check models the repaired code.  Trusted: Lean kernel, "
               "hand model Model/Fmm.lean tied by differential comparison, exafmm stub, IEEE rounding not modelled.")
 TECHNIQUE = "Lean 4 proof (list-sum algebra over a commutative ring, decide on witnesses) + differential correspondence + oracle with an exact exafmm stub"
 
 # The model variant the correspondence compares with: "code" = the tree as it stands; switch to "patched" once
 # findings/proposed_c17.diff is applied to /repo (then point_map_indexing_patched / the rowsByElem variant are the
 # statements about the code, and the *_counterexample theorems document the repaired defect).
-MODEL_VARIANT = "code"
+MODEL_VARIANT = "patched"
 FINDING_KEY = "fmm-segment-space-point-maps"
 TOL = 1e-11
 QUICK_BUDGET_S = float(os.environ.get("C17_QUICK_BUDGET_S", "195"))  # quick tier: optional oracle items (second family, dual test space, second potential) start only
